@@ -106,10 +106,13 @@ impl RootFile {
     pub fn total_files(&self) -> u32 {
         self.header.as_ref().map_or_else(
             || {
+                // The per-block counts are header fields of the file: a block whose
+                // count is out of range is kept without records, so the counts of a
+                // corrupt file can add up to more than `u32::MAX`.
                 self.blocks
                     .iter()
                     .map(super::block::RootBlock::num_records)
-                    .sum()
+                    .fold(0u32, u32::saturating_add)
             },
             super::header::RootHeader::total_files,
         )
